@@ -1,3 +1,4 @@
 import Emboss.Properties.C08
 open Emboss.Lr1
-#print axioms C08_validator_decides
+#print axioms C08_sound
+#print axioms C08_safe
